@@ -138,10 +138,22 @@ End Model.
 (* similarity.py prob_orbit_exact: click = orbit + [0] * (modes - len(orbit)); state.fock_prob raises ValueError
    unless len(click) = modes.  Python's [0] * negative = [] is the truncated subtraction of nat. *)
 Definition orbit_click (orbit : list nat) (modes : nat) : list nat := orbit ++ repeat O (modes - length orbit).
-Definition orbit_ok (orbit : list nat) (modes : nat) : bool := Nat.eqb (length (orbit_click orbit modes)) modes.
+(* current code: `if len(orbit) > modes: return 0.0` before the state is built *)
+Definition orbit_early_zero (orbit : list nat) (modes : nat) : bool := Nat.ltb modes (length orbit).
+(* true iff prob_orbit_exact returns a number (no ValueError from fock_prob) *)
+Definition orbit_accepts (orbit : list nat) (modes : nat) : bool :=
+  if orbit_early_zero orbit modes then true else Nat.eqb (length (orbit_click orbit modes)) modes.
+(* before commit e02f624 there was no early return *)
+Definition orbit_accepts_old (orbit : list nat) (modes : nat) : bool := Nat.eqb (length (orbit_click orbit modes)) modes.
+
 (* qchem/vibronic.py sample: entries per returned sample; z_i = (t_i == 0).
-   program has 2N modes if np.any(t != 0) else N; N zero columns are appended if np.any(t == 0) *)
+   program has 2N modes if np.any(t != 0) else N; N zero columns are appended if not np.any(t != 0) *)
 Definition sample_len (z : list bool) : nat :=
+  let n := length z in
+  let prog := if existsb negb z then 2 * n else n in
+  if negb (existsb negb z) then prog + n else prog.
+(* before commit a38ca99 the padding condition was np.any(t == 0) *)
+Definition sample_len_old (z : list bool) : nat :=
   let n := length z in
   let prog := if existsb negb z then 2 * n else n in
   if existsb (fun b => b) z then prog + n else prog.
